@@ -179,6 +179,27 @@ func Combine[V any](s1, s2 Seq[V]) Seq[V] {
 	}
 }
 
+// Breakable delimits a statement that owns `break` - a switch whose clauses were split
+// into continuations: a Break() raised inside completes the statement normally instead
+// of reaching the enclosing loop.
+func Breakable[V any](s Seq[V]) Seq[V] { return absorb(kBreak, s) }
+
+// Continuable delimits the body of a loop whose post statement is sequenced after the
+// body with Combine: a Continue() raised inside completes the body normally, so the
+// post statement still runs.
+func Continuable[V any](s Seq[V]) Seq[V] { return absorb(kContinue, s) }
+
+func absorb[V any](sig contType, s Seq[V]) Seq[V] {
+	return func(c *co[V], k cont[V]) {
+		s(c, func(t contType, v V) {
+			if t == sig {
+				t = kNormal
+			}
+			k(t, v)
+		})
+	}
+}
+
 func seqOfK[V any](kt contType) Seq[V] {
 	return func(c *co[V], k cont[V]) {
 		k(kt, zero[V]())
